@@ -58,21 +58,38 @@ class State:
         return s
 
     def equal(self, a: Lin, b: Lin) -> bool:
+        """a == b given the zero facts of this path: (a - b) lies in the linear span of the zero forms."""
+        from fractions import Fraction
+
         d = _add(a, b, -1)
         if not d:
             return True
-        # use zero facts (each at most once, either sign)
-        for z in self.zero:
-            for k in (1, -1):
-                if not _add(d, z, k):
-                    return True
-        for i, z1 in enumerate(self.zero):
-            for z2 in self.zero[i + 1:]:
-                for k1 in (1, -1):
-                    for k2 in (1, -1):
-                        if not _add(_add(d, z1, k1), z2, k2):
-                            return True
-        return False
+        if not self.zero:
+            return False
+        atoms = sorted({k for z in self.zero for k in z} | set(d))
+        rows = [[Fraction(z.get(k, 0)) for k in atoms] for z in self.zero]
+        target = [Fraction(d.get(k, 0)) for k in atoms]
+        # Gaussian elimination of the rows, reducing the target alongside
+        piv_rows = []
+        for col in range(len(atoms)):
+            pr = None
+            for r in rows:
+                if r[col] != 0 and all(r is not p for p, _c in piv_rows):
+                    pr = r
+                    break
+            if pr is None:
+                continue
+            piv_rows.append((pr, col))
+            for r in rows:
+                if r is not pr and r[col] != 0:
+                    f_ = r[col] / pr[col]
+                    for i in range(len(atoms)):
+                        r[i] -= f_ * pr[i]
+            if target[col] != 0:
+                f_ = target[col] / pr[col]
+                for i in range(len(atoms)):
+                    target[i] -= f_ * pr[i]
+        return all(x == 0 for x in target)
 
 
 class PathEmit:
